@@ -158,6 +158,8 @@ def rp66_source(variant):
         types.append({'name': 'FT1', 'channels': t1, 'n': variant.get('n1', 5)})
     lp = {'types': types, 'layout': variant.get('layout', 'one'), 'origin': variant.get('origin', 'full')}
     params = variant.get('params', [b'STAT', b'LOC '] if variant.get('perm') else [b'LOC ', b'COUN', b'STAT'])
+    if variant.get('sul'):
+        lp['sul'] = {k: (v.encode() if isinstance(v, str) else v) for k, v in variant['sul'].items()}
     if params:
         lp['extra_sets'] = [parameter_set([p if isinstance(p, bytes) else p.encode() for p in params])]
     if variant.get('two'):
@@ -289,6 +291,24 @@ def convert(fmt, path_in, path_out, opts):
     return res, cap.errors
 
 
+class _Res:
+    ignored = False
+    exception = False
+    binary_file_type = 'RP66V1'
+
+
+def convert_same_index(path_in, path_out, first_opts, opts, scratch_out):
+    """One open LogicalIndex written to LAS twice through the public write_logical_index_to_las: first with first_opts (output
+    discarded), then with opts (output judged).  What the second call writes must not depend on the first."""
+    from TotalDepth.RP66V1 import ToLAS as R
+    from TotalDepth.RP66V1.core import LogicalFile
+    os.makedirs(scratch_out, exist_ok=True)
+    with LogicalFile.LogicalIndex(path_in) as index:
+        for o, out in ((first_opts, os.path.join(scratch_out, 'first.dlis')), (opts, path_out)):
+            R.write_logical_index_to_las(index, o['reduction'], out, make_selector(o['sel']), set(o['channels']), o['width'], o['fmt'])
+    return _Res(), []
+
+
 def match_rows_to_frames(rows, p, cols, opts, fmt):
     """For a sample: the increasing frame indexes whose values the rows hold, or None."""
     out = []
@@ -372,7 +392,10 @@ def check_conversion(fmt, variant, opts, workdir, before=()):
     path_out = os.path.join(o, os.path.splitext(fname)[0] if fmt != 'rp66' else fname)
     bad = []
     try:
-        res, errors = convert(fmt, path_in, path_out, opts)
+        if variant.get('same_index_first') is not None:
+            res, errors = convert_same_index(path_in, path_out, variant['same_index_first'], opts, os.path.join(workdir, 'first'))
+        else:
+            res, errors = convert(fmt, path_in, path_out, opts)
     except Exception as err:  # noqa
         return [({'kind': 'converter_raises', 'format': fmt, 'exc': type(err).__name__}, '%s: %s' % (type(err).__name__, err))], ('raise',)
     files = sorted(os.listdir(o))
@@ -551,6 +574,17 @@ def gen_cases(tier, fmt):
                                'opts': {'sel': sel, 'channels': chs, 'reduction': red, 'width': width, 'fmt': ff}}
     if fmt == 'rp66':
         yield {'variant': {'origin': 'minimal'}, 'opts': dict(DEFAULT)}
+    if fmt == 'rp66':
+        # storage unit labels whose numbers contain zero digits / other spellings: the converter must not ignore the file
+        for sul in ({'maxlen': 4096}, {'maxlen': 10240}, {'seq': 10}, {'seq_text': '0001', 'maxlen': 2048}, {'maxlen': 16384}):
+            yield {'variant': {'sul': sul}, 'opts': dict(DEFAULT)}
+        # one open index converted twice (public write_logical_index_to_las): a larger selection first, then a smaller one
+        firsts = [dict(DEFAULT), dict(DEFAULT, sel=['slice', None, None, -1]), dict(DEFAULT, channels=['GR'])]
+        for first in firsts:
+            for sel in (['slice', 0, 3, 1], ['slice', 4, None, 2], ['sample', 2], None):
+                for chs in ([], ['WAVE']):
+                    for two in (False, True):
+                        yield {'variant': dict({'two': True} if two else {}, same_index_first=first), 'opts': dict(DEFAULT, sel=sel, channels=chs)}
     if fmt == 'lis':
         # dipmeter channels: one LAS column per sub-channel
         for dip in (130, 234):
@@ -601,7 +635,7 @@ def gen_cases(tier, fmt):
                 if two and not extra and n >= 5:
                     # a selection that takes frames from the longer pass and none from the shorter one
                     for chs in CHANNEL_SETS[fmt][:2]:
-                        for sel in (['slice', n - 1, None, None], ['slice', n - 2, n - 1, 2]):
+                        for sel in (['slice', n - 1, None, None], ['slice', n - 2, n - 1, 2], ['slice', 0, -max(1, n - 3), 2], ['slice', 1, -max(1, n - 3), 3]):
                             yield {'variant': dict(v, n1=max(1, n - 3)), 'opts': dict(DEFAULT, sel=sel, channels=chs)}
                 if fmt == 'lis' and two and not extra:
                     yield {'variant': dict(v, cons2=False), 'opts': dict(DEFAULT)}
